@@ -1977,10 +1977,12 @@ class unyt_array(np.ndarray):
                                 # special way using an early return from __array_ufunc__
                                 if ufunc in (equal, not_equal):
                                     if ufunc is equal:
-                                        func = np.zeros_like
+                                        func = np.zeros
                                     else:
-                                        func = np.ones_like
-                                    ret = func(np.asarray(inp1), dtype=bool)
+                                        func = np.ones
+                                    ret = func(
+                                        np.broadcast(inp0, inp1).shape, dtype=bool
+                                    )
                                     if out is not None:
                                         out[:] = ret[:]
                                         if isinstance(out, unyt_array):
